@@ -579,7 +579,9 @@ Args:
     abs_ = 'abs('
     eqns = [([''.join((i,j)) for i,j in zip(*_absval(e.strip(), **kwds))] if abs_ in e else [e.strip()]) for e in constraints.strip().split(NL)]
     # combine each eqn, and simplify the conditionals
-    eqns = tuple(NL.join(merge(*(NL.join(i).split(NL)), inclusive=True)) for i in it.product(*eqns)) #FIXME: inclusive=True, or False ???
+    eqns = (merge(*(NL.join(i).split(NL)), inclusive=False) for i in it.product(*eqns))
+    eqns = tuple(NL.join(e) for e in eqns if e is not None) # the lines of a case hold jointly
+    if not eqns and constraints.strip(): return None # no valid case (as in _simplify)
     return (eqns if all else eqns[random.randint(0,len(eqns)-1)]) if len(eqns) > 1 else (eqns[0] if len(eqns) else '') #FIXME: len(eqns) = 0 --> Error, '', ???
 
 
@@ -797,6 +799,7 @@ def simplify(constraints, variables='x', target=None, **kwds):
     import itertools as it
     all = kwds['all'] if 'all' in kwds else False
     cons = absval(constraints, **kwds) #NOTE: only uses all,verbose
+    if cons is None: return None # no solution
     kwds['variables'] = variables
     kwds['target'] = target
     #import klepto as kl
